@@ -162,6 +162,119 @@ class Progress:
                         changed = True
 
 
+def counted_progress(fn, header, body):
+    """blocks that step a loop counter: a local that, inside the loop, is only ever decreased (or only ever increased) by a
+    positive constant, and that an exit test of the loop compares (with a loop-invariant bound when it counts up).  Passing
+    such a block strictly decreases the distance to the exit, so a cycle through it cannot repeat forever."""
+    body = set(body)
+    out = set()
+    defs = fn.defs()
+    exit_conds = []
+    for b in body:
+        t = fn.term(b)
+        if t['k'] == 'switch':
+            outs = [x[1] for x in t['targets']] + [t['otherwise']]
+            if any(o not in body for o in outs):
+                exit_conds.append(sym(fn, t['op']))
+    for l, ds in defs.items():
+        inside = [d for d in ds if d[1] in body]
+        if not inside or not any(d[1] not in body for d in ds) and not (1 <= l <= fn.arg_count):
+            continue
+        kinds = set()
+        for d in inside:
+            k = None
+            if d[0] == 'assign':
+                v = strip(psc.sym_rv(fn, d[3]))
+                if v[0] == 'binop' and v[1] in ('Sub', 'Add') and strip(v[2]) == ('mlocal', l) and strip(v[3])[0] == 'int' and strip(v[3])[1] > 0:
+                    k = v[1]
+            kinds.add(k)
+        if len(kinds) != 1 or None in kinds:
+            continue
+        kind = next(iter(kinds))
+        ok = False
+        for c in exit_conds:
+            while c[0] == 'unop' and c[1] == 'Not':
+                c = c[2]
+            if c[0] != 'binop' or c[1] not in ('Lt', 'Le', 'Gt', 'Ge', 'Ne', 'Eq'):
+                continue
+            a, b_ = strip(c[2]), strip(c[3])
+            if kind == 'Sub' and (a == ('mlocal', l) or b_ == ('mlocal', l)):
+                other = b_ if a == ('mlocal', l) else a
+                if not any(d2[1] in body for m_ in psc.mlocals(other) for d2 in defs.get(m_, [])):
+                    ok = True
+            if kind == 'Add' and c[1] in ('Lt', 'Le', 'Gt', 'Ge', 'Ne') and (a == ('mlocal', l) or b_ == ('mlocal', l)):
+                other = b_ if a == ('mlocal', l) else a
+                if not any(d2[1] in body for m_ in psc.mlocals(other) for d2 in defs.get(m_, [])):
+                    ok = True
+        if ok:
+            out |= {d[1] for d in inside}
+    return out
+
+
+SHRINK = ('Vec::<T, A>::pop', 'Vec::<T, A>::remove', 'Vec::<T, A>::swap_remove', 'String::pop', 'VecDeque::<T, A>::pop_front', 'VecDeque::<T, A>::pop_back')
+
+
+def _len_container(F, fn, c, depth=0):
+    """the container whose length the (exit) condition c tests: directly, or through a small local predicate such as
+    `in_function()` whose single return value is a comparison of the length of a field of its argument"""
+    while c[0] == 'unop' and c[1] == 'Not':
+        c = c[2]
+    if c[0] == 'binop' and c[1] in ('Lt', 'Le', 'Gt', 'Ge', 'Ne', 'Eq'):
+        for x in (strip(c[2]), strip(c[3])):
+            if x[0] == 'len':
+                return psc.unref(x[1])
+        return None
+    if c[0] == 'call' and depth == 0 and len(c[2]) == 1 and c[1] in F.fns and len(F.fns[c[1]].blocks) <= 12:
+        g = F.fns[c[1]]
+        rs = [r for p_, r in ret_exprs(F, g)]
+        if len(rs) == 1 and rs[0] and rs[0][0] == 'binop':
+            for x in (uncast(rs[0][2]), uncast(rs[0][3])):
+                if x[0] == 'call' and x[1] in psc.LEN_FNS and x[2]:
+                    a = uncast(x[2][0])
+                    # &(*_1).field
+                    if a[0] == 'ref' and a[1].startswith('_1.*.f') and a[1][6:].isdigit():
+                        ty = g.local_ty(1).replace("&'{erased} mut ", '').replace("&'{erased} ", '')
+                        adt = F.adts.get(ty)
+                        if adt and adt['kind'] == 'Struct':
+                            fname = adt['variants'][0]['fields'][int(a[1][6:])]['name']
+                            base = psc.unref(c[2][0])
+                            return ('field', ('deref', base) if base[0] == 'param' else base, fname)
+    return None
+
+
+def shrinking_progress(F, fn, header, body):
+    """blocks that remove an element from the container whose length the loop's exit test compares: the length strictly
+    decreases, so the loop cannot pass such a block forever"""
+    body = set(body)
+    conts = []
+    for b in body:
+        t = fn.term(b)
+        if t['k'] == 'switch':
+            outs = [x[1] for x in t['targets']] + [t['otherwise']]
+            if any(o not in body for o in outs):
+                x = _len_container(F, fn, sym(fn, t['op']))
+                if x is not None:
+                    conts.append(x)
+    out = set()
+    if not conts:
+        return out
+
+    def norm(v):
+        v = psc.unref(v)
+        if v[0] == 'field' and v[1][0] == 'deref':
+            return ('field', psc.unref(v[1][1]), v[2])
+        if v[0] == 'field':
+            return ('field', psc.unref(v[1]), v[2])
+        return v
+    for b, t in fn.calls(body):
+        n = callee_name(t)
+        if any(n.endswith(s) for s in SHRINK) and t['args']:
+            r = norm(sym(fn, t['args'][0]))
+            if any(norm(c) == r for c in conts):
+                out.add(b)
+    return out
+
+
 def cycle_without(fn, header, body, removed):
     """is there a cycle through `header` inside `body` that avoids the `removed` blocks"""
     if header in removed:
@@ -219,6 +332,8 @@ def check(ctx, rep, rule):
                     for f in facts_at(fn, b):
                         if f[0] == 'callbool' and f[1][1].endswith('is_eof') and f[2] is False:
                             removed.add(b)
+            removed |= counted_progress(fn, header, body)
+            removed |= shrinking_progress(F, fn, header, body)
             cyc = cycle_without(fn, header, body, removed)
             construct = 'loop#%d' % ordn
             rep.ob(cyc is None, rule, key, construct,
